@@ -264,6 +264,21 @@ def run_case(case, ctx):
             if second:
                 c2 = rnd.choice(second)
                 cases.append(("pair", (c1[0], c2[0]), c2[2]))
+        # the same list OBJECT offered twice: once honest, then with one node replaced in place
+        # (same length) - the second verdict must be about what the list holds now
+        if proof:
+            same = [copy.deepcopy(n) for n in proof]
+            first = cut(HexaryTrie.get_from_proof, A.root_hash, k, same, expect=(BadTrieProof,))
+            if isinstance(first, Raised) or first != truth:
+                raise Violation("proof-incomplete", "get_from_proof rejects the honest proof of %s when it is handed over as a list" % hx(k))
+            j = rnd.choice(hashed_on_path)
+            alt = flip_bit(same[j], rnd)
+            if alt is not None:
+                same[j] = alt
+                again = cut(HexaryTrie.get_from_proof, A.root_hash, k, same, expect=(BadTrieProof,))
+                if not isinstance(again, Raised):
+                    raise Violation("proof-withheld-accepted", "the same proof list, with hashed path node %d replaced in place, was accepted again (returned %s)" % (j, hx(again)))
+                ctx.count("same_object_reverified")
         for kind, where, bad in cases:
             ctx.count("kind_" + kind.split("+")[0])
             for rname, root, rmodel in roots:
